@@ -4,7 +4,8 @@ Three layers, each verified against the real source:
  (P) transit.Connection consumer accounting (connectConsumer/_writeToConsumer/disconnectConsumer/
      recordReceived/connectionLost/writeToFile, FileConsumer.*): plain methods, ghost event trace;
  (R) cmd_receive.Receiver._transfer_data/_parse_offer/_close_transit/_establish_transit/_handle_text;
- (S) cmd_send.Sender._send_file/_handle_answer.
+ (S) cmd_send.Sender._send_file/_handle_answer (file object and ZipStream), and (O) what is offered:
+     Sender._build_offer/_send_data/_handle_transit.
 (R) and (S) are @inlineCallbacks generators; `yield` is given meaning by props/deferred.py.  The
 deferred-result contract used for record_pipe.writeToFile at (R) is the statement proved at (P).
 Filesystem functions of the Receiver (_handle_file, _write_file, ...) are used through their C05 contracts.
@@ -543,6 +544,15 @@ R_CONTRACTS = [
                   "_close_transit/_establish_transit by the contracts above"),
 ]
 
+def fd_kind_hook(it, fr):
+    """_fd_to_send is what _build_offer returned: a file object, or (second case) the ZipStream of a directory offer"""
+    so = fr.locals["self"]
+    if it.ctx.choose([z3.BoolVal(True), z3.BoolVal(True)], "fd-kind") == 1:
+        zs = it.fresh("obj[ZipStream]", "zs")
+        cur = so.fields["_fd_to_send"]
+        so.fields["_fd_to_send"] = VOpt(cur.isnone, zs) if isinstance(cur, VOpt) else zs
+
+
 # ------------------------------------------------------------------ (S) cmd_send.Sender
 S_SELF = {"_transit_sender": "obj[Transit]", "_fd_to_send": "obj[File]", "_args": "obj[SArgs]", "_timing": "obj[Timing]"}
 SF_EXC = ["TransferError", "ValueError", "UnicodeDecodeError", "AssertionError"] + NET_EXC
@@ -593,7 +603,7 @@ O_CONTRACTS = [
                  ("directory-offer-announces-the-length-of-the-zip-stream",
                   "implies(jhas(OFFER, 'directory'), jfield(OFFER, 'directory', 'zipsize') == len(FD._stream) and "
                   "jfield(OFFER, 'directory', 'dirname') == " + BASE + " and jfield(OFFER, 'directory', 'mode') == 'zipfile/deflated'"
-                  " and is_zipstream(FD))"),
+                  " and is_zipstream(FD) and FD._read == b'')"),
                  ("the-tree-walked-is-the-directory-the-user-named",
                   "implies(jhas(OFFER, 'directory'), bcalls('walk') == 1 and bcall_arg('walk', 0, 0) == " + WHAT + ")"),
              ]],
@@ -614,9 +624,15 @@ O_CONTRACTS = [
 ]
 
 S_CONTRACTS = [
-    Contract(f"{SEND}:Sender._send_file", props=[PROP], params={}, self_fields=S_SELF,
-             requires=["self._fd_to_send._read == b''"], raises={e: None for e in SF_EXC},
+    Contract(f"{SEND}:Sender._send_file", props=[PROP], params={}, self_fields=S_SELF, pre_hook=fd_kind_hook,
+             requires=["self._fd_to_send._read == b''"], raises={e: None for e in SF_EXC}, modifies=["_fd_to_send"],
              internal_ensures=[
+                 ("a-directory-is-streamed-as-exactly-the-zip-stream-whose-length-was-offered",
+                  "implies(is_zipstream(old(self._fd_to_send)), self._fd_to_send._content == old(self._fd_to_send._stream) and "
+                  "filesize == len(old(self._fd_to_send._stream)) and bcalls('open_iterable') == 1 and "
+                  "bcall_arg('open_iterable', 0, 0) is old(self._fd_to_send))"),
+                 ("a-plain-file-is-streamed-as-it-is", "implies(not is_zipstream(old(self._fd_to_send)), "
+                                                      "self._fd_to_send is old(self._fd_to_send) and bcalls('open_iterable') == 0)"),
                  ("S1-success-only-on-an-explicit-ok", "jhas(ack, 'ack') and jget(ack, 'ack') == 'ok'"),
                  ("S1-a-hash-in-the-ack-must-be-the-hash-of-what-was-handed-to-the-pipe",
                   "imp(jhas(ack, 'sha256'), jget(ack, 'sha256') == hexstr(sha256_digest(record_pipe._written)))"),
@@ -628,14 +644,16 @@ S_CONTRACTS = [
              ensures_raise={"error.ConnectionClosed": [("not-success", "True")]},
              note="a lost ack (receive_record errback) or connection loss leaves through ConnectionClosed; a bad ack through TransferError"),
     Contract(f"{SEND}:Sender._handle_answer", props=[PROP], params={"them_answer": "json"},
-             self_fields=dict(S_SELF, _fd_to_send="opt[obj[File]]"),
+             self_fields=dict(S_SELF, _fd_to_send="opt[obj[File]]"), pre_hook=fd_kind_hook, modifies=["_fd_to_send"],
              requires=["self._fd_to_send is None or self._fd_to_send._read == b''"],
              raises={e: None for e in SF_EXC + ["KeyError", "TypeError", "AttributeError", "IndexError"]},
              internal_ensures=[
-                 ("text-needs-message-ack-ok", "implies(self._fd_to_send is None, jhas(them_answer, 'message_ack') and "
+                 ("text-needs-message-ack-ok", "implies(old(self._fd_to_send) is None, jhas(them_answer, 'message_ack') and "
                                                "jget(them_answer, 'message_ack') == 'ok' and call_seq() == [])"),
+                 ("a-text-transfer-has-nothing-to-stream-afterwards-either",
+                  "implies(old(self._fd_to_send) is None, self._fd_to_send is None)"),
                  ("file-needs-file-ack-ok-and-a-completed-send-file",
-                  "implies(self._fd_to_send is not None, jhas(them_answer, 'file_ack') and jget(them_answer, 'file_ack') == 'ok' "
+                  "implies(old(self._fd_to_send) is not None, jhas(them_answer, 'file_ack') and jget(them_answer, 'file_ack') == 'ok' "
                   "and call_seq() == ['_send_file'] and ret_seq() == ['_send_file'])")]),
 ]
 
@@ -704,6 +722,34 @@ def regf_r_text():
     return reg
 
 
+def install_zipstream(reg):
+    """zipstream.ng.ZipStream(sized=True) as a boundary object with ghost fields: _stream = the bytes the finished stream
+    yields, _read = what has been consumed from it so far, _entries = its info_list().  len(zs) is the length of _stream
+    (what `sized` promises); open_iterable(zs, 'rb') is a file object over exactly that stream"""
+    from pyvc import models as M
+    reg.class_fields["ZipStream"] = {"_stream": "bytes", "_read": "bytes", "_entries": "seq[json]"}
+    reg.exc_bases.setdefault("ZipStream", "zipstream.ng.ZipStream")
+
+    def b_len(it, args, kw):
+        v = it.force(args[0])
+        if isinstance(v, VObj) and v.cls == "ZipStream":
+            return VInt(z3.Length(v.fields["_stream"].z))
+        return M.b_len(it, args, kw, None)
+
+    reg.ext_models["builtins.len"] = b_len
+
+    def open_iterable(it, args, kw):
+        zs = it.force(args[0])
+        mode = it.concrete(it.force(args[1])) if len(args) > 1 else "r"
+        if not (isinstance(zs, VObj) and zs.cls == "ZipStream" and mode == "rb"):
+            raise OutOfSubset("open_iterable of something that is not a ZipStream opened 'rb'")
+        it.ctx.event("bcall", "iterableio", "open_iterable", [zs, VStr(mode)], {})
+        return VObj("File", {"name": VStr(""), "mode": VStr(mode), "_content": zs.fields["_stream"], "_read": zs.fields["_read"]})
+
+    reg.ext_models["iterableio.open_iterable"] = open_iterable
+    reg.spec_funcs["is_zipstream"] = lambda it, v: VBool(isinstance(it.force(v), VObj) and it.force(v).cls == "ZipStream")
+
+
 def install_offer_models(reg):
     """library models for Sender._build_offer: POSIX path functions and the ghost filesystem of C05, file contents as a
     ghost function of the path, zipstream.ng as a boundary object"""
@@ -712,7 +758,6 @@ def install_offer_models(reg):
     c05.install_spec(reg)
     em, sf = reg.ext_models, reg.spec_funcs
     reg.class_fields["GhostFS"] = {"exists": "set[str]", "isdir": "set[str]", "isfile": "set[str]"}
-    reg.exc_bases.setdefault("ZipStream", "zipstream.ng.ZipStream")
     for name in ("normpath", "realpath"):
         em["os.path." + name] = (lambda nm: lambda it, args, kw: VStr(uf("posix_" + nm, StringS, StringS)(c05.path_arg(it, args[0]).z), "str"))(name)
         sf[name] = (lambda nm: lambda it, p_: VStr(uf("posix_" + nm, StringS, StringS)(sview(p_).z), "str"))(name)
@@ -767,11 +812,13 @@ def install_offer_models(reg):
     sf["users_text"] = lambda it, opt: (evs(it, "input-line") or evs(it, "stdin-read") or [it.force(opt)])[0]
 
     # ---- zipstream.ng
-    reg.class_fields["ZipStream"] = {"_stream": "bytes", "_entries": "seq[json]"}
+    install_zipstream(reg)
 
     def new_zipstream(it, args, kw):
         it.ctx.event("bcall", "zipstream", "ZipStream", list(args), dict(kw))
-        return it.fresh("obj[ZipStream]", "zs")
+        zs = it.fresh("obj[ZipStream]", "zs")
+        zs.fields["_read"] = VStr(b"")          # a new stream: nothing consumed yet
+        return zs
 
     em["zipstream.ng.ZipStream"] = new_zipstream
 
@@ -799,13 +846,6 @@ def install_offer_models(reg):
 
     reg.boundary["ZipStream.info_list"] = zs_info_list
 
-    def b_len(it, args, kw):
-        v = it.force(args[0])
-        if isinstance(v, VObj) and v.cls == "ZipStream":        # sized ZipStream: len() is the size of the finished stream
-            return VInt(z3.Length(v.fields["_stream"].z))
-        return M.b_len(it, args, kw, None)
-
-    em["builtins.len"] = b_len
 
     def entries_comprehension(it, e, g, coll, fr):
         """[x["size"] for x in zs.info_list() if not x["is_dir"]] and sum() of it: NOT under contract - some list of ints
@@ -830,7 +870,6 @@ def install_offer_models(reg):
     reg.ext_consts["errno.EACCES"] = 13
     for e in ("OSError", "PermissionError"):
         em[f"attr:{e}.strerror"] = lambda it, o: it.fresh("str", "strerror")
-    sf["is_zipstream"] = lambda it, v: VBool(isinstance(it.force(v), VObj) and it.force(v).cls == "ZipStream")
     sf["to_j"] = lambda it, v: VJson(to_json(it.force(v)))
 
     asj = lambda it, v: v if isinstance(v, VJson) else VJson(to_json(it.force(v)))      # noqa: E731
@@ -879,6 +918,7 @@ def regf_s():
     install_rs(reg)
     reg.class_fields["File"] = {"name": "str", "_read": "bytes", "_content": "bytes"}
     reg.class_fields["SArgs"] = {"hide_progress": "bool", "stderr": "obj[Stream]"}
+    install_zipstream(reg)
     for c in S_CONTRACTS:
         reg.contracts[c.target] = c
     return reg
@@ -950,12 +990,29 @@ TRUSTED = [
     "file objects: f.write(b) appends b to the ghost content f._written; RecordPipe.write(b) appends to pipe._written (ghost)",
     "assert statements are executed (no python -O): `assert received == self.xfersize` is what rejects surplus bytes",
     "the C05 contracts of Receiver._handle_file/_handle_directory/_write_file/_write_directory (verified by ./check C05)",
+    "print() in Receiver._handle_text is a recorded boundary call (elsewhere it is dropped syntax); repr(v) is an uninterpreted "
+    "function of the value (what Python escapes is not modelled, only that the text shown is repr(message)[1:-1])",
+    "Sender._build_offer: POSIX path model of C05 (join by definition, basename axioms) plus uninterpreted os.path.normpath / "
+    "realpath / relpath; ghost filesystem of C05 for exists/isfile/isdir; file contents are a ghost function of the path "
+    "(content_of): os.stat(p).st_size is its length, open(p, 'rb') reads it, f.seek(0, 2) returns its length (no other process "
+    "changes the file between stat/open and the transfer); os.stat/open/os.access/zs.add_path may fail with OSError; "
+    "sys.stdin.read() / input() return some str (input may raise EOFError); stat.S_ISBLK is some bool",
+    "zipstream.ng (assumed): ZipStream(sized=True) is a boundary object with ghost fields _stream (the bytes the finished "
+    "stream yields), _read (consumed so far; empty for a new stream) and _entries; add_path(path, arcname=, recurse=) changes "
+    "the stream (havoc) or raises OSError; len(zs) == len(zs._stream) ('sized'); walk(top, ...) yields some list of paths; "
+    "iterableio.open_iterable(zs, 'rb') is a file object whose content is exactly zs._stream",
 ]
 ASSUMPTIONS = [
-    "records arrive unmodified and in order (C06), sha256 collision resistance, zipfile/zipstream content round trip and "
-    "repr() escaping of text messages are outside this check",
+    "records arrive unmodified and in order (C06), sha256 collision resistance, zipfile/zipstream content round trip (what "
+    "bytes a ZipStream produces for a tree, what ZipFile.extract writes) and what repr() escapes are outside this check",
     "FileConsumer/consumer identity: Connection.connectConsumer is verified for FileConsumer consumers",
-    "Sender._send_file is verified for a plain file object in _fd_to_send (the ZipStream branch `len(zs)`/open_iterable is not modelled)",
+    "Sender._send_file / _handle_answer are verified for both kinds of _fd_to_send that _build_offer returns: a file object and a "
+    "ZipStream (pre-state fork fd-kind); Sender._build_offer is verified on its own - that Sender._go stores its second result "
+    "in _fd_to_send and sends its first result as the offer is not under contract (Sender._go / go: QR code, verifier prompt, "
+    "TransitSender construction, the get_message loop)",
+    "not under contract: numfiles / numbytes of a directory offer (the comprehension over zs.info_list() and sum() of a symbolic "
+    "list are outside the engine's subset: both values are arbitrary here; the receiver uses them for its free-space message "
+    "only); Receiver._go / go / _get_data / _handle_code / _build_transit / _parse_transit / _send_permission",
     "a JSON float xfersize equal to the integer byte count is treated by the engine as unequal (the real code succeeds "
     "there; the claims are unaffected)",
     "negative `expected`: connectConsumer then fires on the first record; the receiver's assert rejects it",
